@@ -13,7 +13,7 @@ func c09Cfg() *DeclCfg {
 	types := []TypeSpec{{K: KString}, {K: KBool}, {K: KBool}, {K: KInt}, {K: KString, W: WSlice}, {K: KUint8}, {K: KFloat64}, {K: KDuration}, {K: KString, W: WMap, MapKey: KString}, {W: WFunc0}}
 	return &DeclCfg{
 		MaxDepth: 3, MaxFan: 3, PCmds: 75, Types: types, OptsMin: 1, OptsMax: 3, SubGroupsMax: 1, NestMax: 1,
-		PNamespace: 25, PShortOnly: 20, PLongOnly: 20, PRequired: 25, PChoices: 15,
+		PNamespace: 25, PShortOnly: 20, PLongOnly: 20, PRequired: 25, PChoices: 15, PProgAttr: 30, POptional: 15, PHiddenCmd: 15,
 		PPos: 30, PosMax: 2, PRest: 40, PPosReq: 50, PExec: 100, PSubOptional: 30, PAliases: 20,
 		ParserOpts: []flags.Options{flags.HelpFlag, flags.HelpFlag | flags.PassDoubleDash, flags.PassDoubleDash, 0, flags.HelpFlag | flags.PassDoubleDash | flags.PassAfterNonOption},
 		PosTypes:   []TypeSpec{{K: KString}, {K: KInt}},
@@ -29,6 +29,10 @@ func c09CfgFor(fault string) *DeclCfg {
 		cfg.Types = append(cfg.Types, TypeSpec{K: KBool}, TypeSpec{K: KBool})
 	case "bad-choice":
 		cfg.PChoices = 60
+	case "bad-positional":
+		cfg.PPos, cfg.PCmds = 90, 50
+		cfg.PosTypes = []TypeSpec{{K: KInt}, {K: KInt}, {K: KFloat64}, {K: KDuration}, {K: KString}}
+		cfg.ParserOpts = []flags.Options{flags.PassDoubleDash, flags.HelpFlag | flags.PassDoubleDash, flags.IgnoreUnknown | flags.PassDoubleDash, flags.IgnoreUnknown, flags.PassDoubleDash | flags.PassAfterNonOption}
 	case "drop-required-option":
 		cfg.PRequired = 60
 	case "drop-required-positional":
@@ -41,7 +45,7 @@ func c09CfgFor(fault string) *DeclCfg {
 	return cfg
 }
 
-var c09Faults = []string{"none", "unknown-option", "bad-value", "missing-argument", "flag-with-argument", "drop-required-option", "drop-required-positional", "unknown-command", "missing-command", "help", "help-in-cluster", "bad-choice", "exec-error", "completion"}
+var c09Faults = []string{"none", "unknown-option", "bad-value", "missing-argument", "flag-with-argument", "drop-required-option", "drop-required-positional", "unknown-command", "missing-command", "help", "help-in-cluster", "bad-choice", "exec-error", "completion", "bad-positional"}
 
 type hostHandlers struct {
 	handlerErr error
@@ -176,6 +180,18 @@ func c09Run(c *Ctx) {
 		c.Held(cell, shape)
 		return
 	}
+	if wantErr && fault == "bad-positional" {
+		if o.Err == nil {
+			c.Violate("fault:bad-positional:not-reported", "an unconvertible positional value was accepted: argv %q", args)
+			return
+		}
+		if len(inv) != 0 {
+			c.Violate("fault:bad-positional:executed", "parse failed (%v) but %v was invoked", o.Err, inv)
+			return
+		}
+		c.Held(cell, shape)
+		return
+	}
 	if wantErr {
 		if o.FErr == nil || o.FErr.Type != wantType {
 			c.Violate("fault:"+fault+":wrong-error", "fault %s at item %d: got %s (%v), want %s", fault, pos, errTypeName(o.Err), o.Err, wantType)
@@ -296,6 +312,59 @@ func injectFault(c *Ctx, r *Rand, d *Decl, sc *Scenario, fault string) (items []
 		if fault == "bad-choice" {
 			wantType = flags.ErrInvalidChoice
 		}
+	case "bad-positional":
+		// a typed positional of the final command receives an unconvertible token: as a plain token, after the
+		// terminator, or as an unknown option passed through under IgnoreUnknown
+		if sc.Final.Pos == nil {
+			c.Unspec("no positionals")
+			return nil, 0, 0, 0, false, false
+		}
+		var typed *PosArg
+		at := -1
+		for _, a := range sc.Final.Pos.Args {
+			if a.T.K != KString {
+				typed = a
+				break
+			}
+		}
+		if typed == nil {
+			c.Unspec("no typed positional")
+			return nil, 0, 0, 0, false, false
+		}
+		// find the item that fills it (first token bound to it) and replace its token
+		seen := 0
+		dn0 := Denote(d, nil)
+		_ = dn0
+		for i := range valid {
+			if valid[i].Kind != IPos && valid[i].Kind != IRaw {
+				continue
+			}
+			pre := Denote(d, valid[:i+1])
+			if pre.Final == sc.Final && len(pre.Exp.PosVals[typed]) == 1 && seen == 0 {
+				at = i
+				seen++
+			}
+		}
+		if at < 0 {
+			c.Unspec("typed positional not filled in this vector")
+			return nil, 0, 0, 0, false, false
+		}
+		bad := r.Pick([]string{"notanumber", "1x", "", "!!"})
+		route := r.Intn(3)
+		items = append([]*Item{}, valid...)
+		switch {
+		case route == 1 && d.Options&flags.PassDoubleDash != 0 && at >= pi:
+			items[at] = &Item{Kind: IFault, Toks: []string{bad}, Note: fault + " after terminator"}
+		case route == 2 && d.Options&flags.IgnoreUnknown != 0 && at < pi:
+			items[at] = &Item{Kind: IFault, Toks: []string{"--zz-unknown-as-positional"}, Note: fault + " via IgnoreUnknown"}
+		default:
+			if bad == "" && at < pi {
+				bad = "x1"
+			}
+			items[at] = &Item{Kind: IFault, Toks: []string{bad}, Note: fault}
+		}
+		pos = at
+		wantType = flags.ErrUnknown // any non-nil error: positional conversion errors are raw errors
 	case "missing-argument":
 		var cands []*Opt
 		for _, o := range d.ScopeOf(sc.Final).Addressable(d) {
